@@ -513,6 +513,14 @@ int main(int argc, char** argv) {
   }
   const int nshards = 256;
   hz::PoolOpts po; po.workers = a.workers; po.hang_s = 8; po.hang_is_violation = true; po.max_restarts = 400; po.crash_is_violation = g_primary; po.resume = true;
+  po.crash_key = [](const std::string& what) {   // the fact flags of the input (everything the known-findings predicates read)
+    size_t p = what.find("facts=["), e = what.find(']', p == std::string::npos ? 0 : p);
+    if (p == std::string::npos || e == std::string::npos) return what.substr(0, 80);
+    std::istringstream is(what.substr(p + 7, e - p - 7));
+    std::string tok, flags;
+    while (is >> tok) if (tok.compare(0, 8, "timecnt=") != 0 && tok.compare(0, 8, "typecnt=") != 0) flags += tok + " ";
+    return flags;
+  };
   hz::run_shards(nshards, po, a.workdir, [&](const hz::ShardCtl& ctl, hz::Result& r) {
     Sel sel; sel.shard = ctl.shard; sel.nshards = nshards; sel.skip = &ctl.skip; sel.resume_from = ctl.resume_from;
     // the fixed-size degenerate family first, then the seeds in order: a deadline then only cuts a suffix of the
